@@ -247,6 +247,35 @@ pub fn run(args: &Args) {
         }
     }
 
+    // ---------------- the long-lived shared dictionary still answers like a freshly loaded one ("never modified after loading"):
+    // whatever the tokenizers of all the rounds above asked of it -- including texts that exercise rarely taken branches of
+    // its plugins -- a dictionary loaded now from the same bytes and configuration must give the same analyses
+    if args.replay.is_none() {
+        let d: &JapaneseDictionary = &dict_user;
+        {
+            let mut tok = StatefulTokenizer::new(d, Mode::C);
+            for t in ["。12%", "あ5%xx", "한", "𝕜", "𠁁A", "1AB", "ーー(とう)", "123,4.5", "アイウ"] {
+                let _ = digest_c(d, &mut tok, Mode::C, t, 0);
+            }
+        }
+        let user3 = std::fs::read(format!("{}/user.dic.test", res)).unwrap();
+        let fresh = load_dictionary(&dir, system.clone(), vec![user3], &cfg).expect("dictionary");
+        let id = sink.case_rust_only(json!({"kind": "dictionary-vs-fresh", "note": "shared dictionary after all rounds vs a freshly loaded one"}), true);
+        sink.tag("dictionary_vs_fresh");
+        let mut t1 = StatefulTokenizer::new(d, Mode::C);
+        let mut t2 = StatefulTokenizer::new(&fresh, Mode::C);
+        for t in ["xx", "abc京都", "a", "東京xx12%", "𝕜한", "A𠁁", "東京都に行った。", "ｶﾞｶﾞ㍿", "1,000.5円", "アイウエ", "京都（きょうと）ーー"] {
+            for m in [Mode::A, Mode::C] {
+                let a = digest_c(d, &mut t1, m, t, 0);
+                let b = digest_c(&fresh, &mut t2, m, t, 0);
+                if a != b {
+                    sink.fail(id, &format!("after the rounds the shared dictionary analyses {:?} differently from a freshly loaded dictionary: it was modified after loading", t), "");
+                    break;
+                }
+            }
+        }
+    }
+
     // ---------------- sentence splitters of several threads over the shared dictionary's lexicon, each with its own window limit
     if args.replay.is_none() {
         use sudachi::sentence_splitter::{SentenceSplitter, SplitSentences};
